@@ -40,7 +40,7 @@ def plan(tier, seed, rng, scale):
     for t in TEMPLATES:
         for k in (9, 31, 33):
             descs.append({'template': t, 'k': k, 'seed': rng.getrandbits(32)})
-    n = int((150 if tier == 'quick' else 5000) * scale)
+    n = int((600 if tier == 'quick' else 10000) * scale)
     for i in range(n):
         descs.append({'template': rng.choice(TEMPLATES) if i % 4 == 0 else None,
                       'k': rng.choice([5, 9, 15, 31, 33, 41]) if rng.random() < 0.8 else rng.choice(G.ALL_K),
